@@ -58,6 +58,8 @@ type Result struct {
 	WSFrames    int                 `json:"ws_frames_sent"`
 	UploadsOK   int                 `json:"uploads_delivered_exact"`
 	SpillFiles  int                 `json:"spill_cases"`
+	StallForced int                 `json:"stall_forced"` // part (e): a server goroutine really was stuck in its socket write while the frames arrived
+	Repetitions int                 `json:"repetitions"`
 	Findings    map[string]*Finding `json:"findings"`
 	Samples     []any               `json:"samples"`
 	Incomplete  []string            `json:"incomplete"`
@@ -295,6 +297,21 @@ func runWorker(shard, of int, tier string) {
 			w.wsTree(sub, wsAlphabet(sub), wsDepth(tier))
 		}
 	})
+	part("e", func() {
+		wsActiveCases(tier, func(c *WSCase) {
+			if w.isExpired() || int(fnv64(fmt.Sprintf("%s#%d", wsKey(c), c.Rep))%uint64(of)) != shard {
+				return
+			}
+			o := w.wsCase(c, true)
+			if c.Mode == "stall" && o.StalledWriters > 0 {
+				w.res.StallForced++
+			}
+			if c.Rep > 0 {
+				w.res.Nontrivial-- // a repetition of the same input is not a distinct case
+				w.res.Repetitions++
+			}
+		})
+	})
 	part("b", func() { enumB(tier, w.httpCase) })
 	out, _ := json.Marshal(w.res)
 	os.Stdout.Write(out)
@@ -422,7 +439,7 @@ func main() {
 	expKinds := map[string]int{}
 	outcomes := map[string]int{}
 	findings := map[string]*Finding{}
-	var total, nontrivial, dup, unreachable, lenient, wsExec, wsPruned, wsFrames, upOK, spill int
+	var total, nontrivial, dup, unreachable, lenient, wsExec, wsPruned, wsFrames, upOK, spill, stallForced, reps int
 	incomplete := map[string]bool{}
 	var samples []any
 	for _, r := range results {
@@ -445,6 +462,8 @@ func main() {
 		wsFrames += r.WSFrames
 		upOK += r.UploadsOK
 		spill += r.SpillFiles
+		stallForced += r.StallForced
+		reps += r.Repetitions
 		for _, s := range r.Incomplete {
 			incomplete[s] = true
 		}
@@ -535,6 +554,8 @@ func main() {
 	c.Cov["ws_frames_sent"] = wsFrames
 	c.Cov["uploads_delivered_exact"] = upOK
 	c.Cov["spill_file_cases"] = spill
+	c.Cov["ws_active_operation_cases_with_writer_stalled_in_socket_write"] = stallForced
+	c.Cov["ws_burst_repetitions_not_counted_as_distinct"] = reps
 	c.Assume = []string{
 		"JSON inputs follow encoding/json stream semantics: only the first complete JSON value of a body/parameter is the input; trailing bytes are counted (lenient_trailing_data_inputs) but not required to be rejected",
 		"a body over MaxUploadSize must be refused with a well-formed error and no resolver call; the statement defines no status for it (gqlgen's own test pins 200), so none is asserted there; every other malformed HTTP input must get 4xx (or an in-stream error once an event stream has started)",
